@@ -42,6 +42,12 @@ CLAIMED = {
         text="Lean theorems over all token streams: what the scanner returns plus what it leaves is the input (verbatim re-emission), it stops only at a top-level comma, Ident iff a single identifier, commas inside delimited groups / `::<..>` / `<..>::` / closure parameter lists (angle-balanced, any nesting depth) never split; two kernel-checked witnesses document the known findings (binary `|`, cast to a generic type). The model is compared with the working-tree FmtAttribute parsing on ~6.5k generated and mutated argument lists, and the implementation with syn's full Expr parser on the same lists",
         note="Lean kernel; proc_macro2 tokenisation shared by all parties; syn(full) stands for Rust's grammar; three known findings attributed by construct (argument parenthesised => split correct)",
         ref="DESIGN.md §4 C16"),
+    "C09": dict(
+        level="proof",
+        technique="Lean 4 theorem: the two-index-space selection of error.rs equals the documented rules stated on positions among all fields + exhaustive in-process enumeration of the shape grid + address comparison with the real macro",
+        text="Lean theorem source_is_documented (all field counts, all attribute placements, all positions of ignored fields): the enabled-position the code selects, converted back, is the field the documented rules select, errors included; returned fields are never ignored; double #[error(source)] is an error. The model and a second (Python) statement of the rules are compared with the working-tree expansion on the whole grid of 0..3 fields x 8 attribute forms x names x types (quick: all shapes with <= 2 fields + 9000 three-field shapes; thorough: exhaustive), and 180 shapes are compiled (nightly, real macro) to compare the address source() returns with the addresses of the fields",
+        note="Lean kernel; model tied by differential run on the grid; as_dyn_error dispatch and the nightly-only provide() half are not modelled",
+        ref="DESIGN.md §4 C09"),
 }
 
 NOT_APPLICABLE = {}
